@@ -1127,12 +1127,12 @@ def bs_american_binary_delta(
     d2_tensor = d2(s, t, v)
     w = v * t.sqrt()
 
-    # ToDo: fix 0/0 issue
-    p = (
-        npdf(d2_tensor).div(spot * w)
-        + ncdf(d1_tensor).div(strike)
-        + npdf(d1_tensor).div(strike * w)
+    numerator = npdf(d2_tensor).div(spot) + npdf(d1_tensor).div(strike)
+    density = numerator / w
+    density = torch.where(
+        (numerator == 0).logical_and(w == 0), torch.zeros_like(density), density
     )
+    p = density + ncdf(d1_tensor).div(strike)
     return p.where(max_log_moneyness < 0, torch.zeros_like(p))
 
 
